@@ -293,6 +293,9 @@ func runCheck(repo, prop, tier string, seed int, opt solveOpts, start time.Time)
 	// lemmas over the contracts (pure SMT files under /verif/lemmas/<prop>_*.smt2 with an `expect:` header)
 	lemmaEv := []map[string]any{}
 	lfiles, _ := filepath.Glob(filepath.Join(verifRoot(), "lemmas", prop+"_*.smt2"))
+	// ENGINE_*.smt2: validity of the arithmetic lemmas the VC generator itself adds as assumptions (checked with every property)
+	efiles, _ := filepath.Glob(filepath.Join(verifRoot(), "lemmas", "ENGINE_*.smt2"))
+	lfiles = append(lfiles, efiles...)
 	sort.Strings(lfiles)
 	for _, lf := range lfiles {
 		src, err := os.ReadFile(lf)
